@@ -141,6 +141,7 @@ type c03Params struct {
 	Maxpend    int
 	Dotu       bool
 	OneSegment bool
+	SlowReader bool // the client stops reading until everything that can finish has finished
 	P          int
 }
 
@@ -149,7 +150,11 @@ func (p c03Params) name() string {
 	for _, r := range p.Reqs {
 		rs = append(rs, r.Kind+":"+r.Script)
 	}
-	return fmt.Sprintf("batch[%s] release=%v maxpend=%d dotu=%v oneseg=%v", strings.Join(rs, ","), p.Release, p.Maxpend, p.Dotu, p.OneSegment)
+	slow := ""
+	if p.SlowReader {
+		slow = " slow-reader"
+	}
+	return fmt.Sprintf("batch[%s] release=%v maxpend=%d dotu=%v oneseg=%v%s", strings.Join(rs, ","), p.Release, p.Maxpend, p.Dotu, p.OneSegment, slow)
 }
 
 func c03Scenario(p c03Params) Scenario {
@@ -191,6 +196,11 @@ func c03Scenario(p c03Params) Scenario {
 				}
 			})
 		}
+		if p.SlowReader {
+			// the client does not read for a while: the server's writer blocks inside Write
+			// and finished requests pile up behind it
+			s.c.SrvEnd.StallOutgoing()
+		}
 		if p.OneSegment {
 			s.c.Send(p.Dotu, s.msgs...)
 		} else {
@@ -199,6 +209,10 @@ func c03Scenario(p c03Params) Scenario {
 			}
 		}
 		vs.Idle()
+		if p.SlowReader {
+			s.c.SrvEnd.UnstallOutgoing()
+			vs.Idle()
+		}
 		vs.Window(false)
 		s.c.Collect()
 	}
@@ -508,6 +522,16 @@ func c03ReuseScenario(kindA, kindB string, flush string, maxpend int, dotu bool,
 	}})
 }
 
+func gatedOf(scripts ...string) []int {
+	var g []int
+	for i, sc := range scripts {
+		if strings.HasPrefix(sc, "gate") {
+			g = append(g, i)
+		}
+	}
+	return g
+}
+
 func perms(xs []int) [][]int {
 	if len(xs) <= 1 {
 		return [][]int{append([]int(nil), xs...)}
@@ -551,6 +575,9 @@ func c03Scenarios(tier string) []Scenario {
 			add([]reqSpec{{"write", sc[0]}, {"read", sc[1]}}, 1, false, false, 2)
 		}
 		add([]reqSpec{{"read", "gate"}, {"write", "gate"}, {"stat", "gate"}}, 0, true, true, 1)
+		for i, sc := range scripts2 {
+			out = append(out, c03Scenario(c03Params{Reqs: []reqSpec{{"read", sc[0]}, {"stat", sc[1]}, {"write", "imm"}}, Release: gatedOf(sc[0], sc[1]), Maxpend: i % 3, Dotu: i%2 == 0, OneSegment: i%2 == 1, SlowReader: true, P: 1}))
+		}
 		out = append(out, c03FlushScenario("read", "stat", 1, 0, true, 2), c03FlushScenario("stat", "read", 2, 1, false, 2), c03FlushScenario("walk", "write", 1, 2, true, 2))
 		out = append(out, c03ReuseScenario("stat", "read", "none", 0, true, 2), c03ReuseScenario("stat", "read", "default", 0, false, 2), c03ReuseScenario("read", "stat", "cancel", 1, true, 2), c03ReuseScenario("walk", "write", "default", 2, false, 2))
 		return out
@@ -560,6 +587,11 @@ func c03Scenarios(tier string) []Scenario {
 			for i, sc := range scripts2 {
 				add([]reqSpec{{kinds[a], sc[0]}, {kinds[b], sc[1]}}, i%3, i%2 == 0, (a+b+i)%2 == 0, 3)
 			}
+		}
+	}
+	for i, sc := range scripts2 {
+		for _, mp := range []int{0, 1, 2} {
+			out = append(out, c03Scenario(c03Params{Reqs: []reqSpec{{"read", sc[0]}, {"stat", sc[1]}, {"write", "imm"}}, Release: gatedOf(sc[0], sc[1]), Maxpend: mp, Dotu: i%2 == 0, OneSegment: i%2 == 1, SlowReader: true, P: 2}))
 		}
 	}
 	for _, mp := range []int{0, 1, 2} {
@@ -595,5 +627,5 @@ func init() {
 		Technique: "stateless model checking of the real server under a controlled scheduler (all schedules within a preemption bound)",
 		Rule:      "every schedule with at most P preemptions (P iterated 0..bound, select-case choices free) of server recv/worker/send goroutines + scripted implementation + releaser, per scenario (request kinds x scripts x release order x Maxpend x dialect x segmentation; late answers of cancelled requests; a reactive client re-using a tag the moment its reply is read, with and without a Tflush of the second use and a third use after the Rflush); distinct = distinct per-object operation orders (trace hash)",
 		Assumptions: []string{"code between two synchronisation operations is atomic (sound for race-free executions; C19 checks race freedom)", "transport modelled as an unbounded reliable byte queue", "map iteration fixed to ascending key order"},
-		Scenarios:   c03Scenarios, QuickS: 100, ThoroughS: 1500})
+		Scenarios:   c03Scenarios, QuickS: 180, ThoroughS: 1500})
 }
